@@ -250,6 +250,12 @@ func main() {
 	}
 	tGen := time.Since(t0).Seconds() - tLoad
 	x.finalizeNames()
+	x.knownObl = map[string]bool{}
+	for _, k := range known.Findings {
+		if k.Property == *prop {
+			x.knownObl[k.Obligation] = true
+		}
+	}
 	scfg := solveCfg{dir: filepath.Join(outDir, "smt"), fastSecs: 3, fullSecs: 20, jobs: 10, keepFiles: *keep}
 	if *tier == "thorough" {
 		scfg.fullSecs = 60
